@@ -686,6 +686,30 @@ where
     }
 }
 
+#[cfg(lora_rs_verif)]
+impl<R, T, G, const N: usize, const D: usize> Device<R, T, G, N, D>
+where
+    R: radio::PhyRxTx + Timings,
+    T: radio::Timer,
+    G: RngCore,
+{
+    /// Verification hook: MAC snapshot.
+    pub fn verif_snapshot(&self) -> crate::verif::VerifMac {
+        self.mac.verif_snapshot()
+    }
+
+    /// Verification hook: number of downlinks queued for `take_downlink`.
+    pub fn verif_queued_downlinks(&self) -> usize {
+        self.downlink.len()
+    }
+
+    /// Verification hook: whether Class C behaviour is enabled.
+    #[cfg(feature = "class-c")]
+    pub fn verif_class_c(&self) -> bool {
+        self.class_c
+    }
+}
+
 /// Allows to fine-tune the beginning and end of the receive windows for a specific board and runtime.
 pub trait Timings {
     /// How many milliseconds before the RX window should the SPI transaction start?
